@@ -3,13 +3,20 @@
 import json, re, subprocess, sys
 repo = sys.argv[1] if len(sys.argv) > 1 else "/repo"
 base = json.load(open("/root/.vp/BASELINE.json"))["stable_pass"]
-r = subprocess.run("make -C %s >/dev/null 2>&1; make -C %s/test test 2>&1" % (repo, repo), shell=True, capture_output=True, text=True)
-out = r.stdout
-passed = set()
-for m in re.finditer(r"^(Testing .*?)\.\.\.(.*)$", out, re.M):
-    if m.group(2).startswith("passed"):
-        passed.add(m.group(1))
-missing = [t for t in base if t not in passed]
+import time
+for attempt in range(6):
+    r = subprocess.run("make -C %s >/dev/null 2>&1; make -C %s/test test 2>&1" % (repo, repo), shell=True, capture_output=True, text=True)
+    out = r.stdout
+    passed = set()
+    for m in re.finditer(r"^(Testing .*?)\.\.\.(.*)$", out, re.M):
+        if m.group(2).startswith("passed"):
+            passed.add(m.group(1))
+    missing = [t for t in base if t not in passed]
+    # the socket tests use a fixed TCP port: another suite run on this machine makes them fail spuriously
+    if missing and "Address already in use" in out or (missing and all("socket" in t for t in missing)):
+        time.sleep(15)
+        continue
+    break
 print("baseline: %d/%d stable tests passed" % (len(base) - len(missing), len(base)))
 for t in missing:
     print("  NOT PASSED:", t)
